@@ -36,6 +36,17 @@ def first? (xs : List α) : Option α := xs.getLast?
 /-- `xs + [x]` / `xs.append(x)` -/
 def push (xs : List α) (x : α) : List α := x :: xs
 
+/-- the list after its element `xs[-1]` (an object) changed state to `v` -/
+def setLast : List α → α → List α
+  | [], _ => []
+  | _ :: xs, v => v :: xs
+
+/-- the list after its element `xs[0]` changed state to `v` -/
+def setFirst : List α → α → List α
+  | [], _ => []
+  | [_], v => [v]
+  | x :: y :: xs, v => x :: setFirst (y :: xs) v
+
 end TonVerif.Py.RL
 
 namespace TonVerif.Py.Tlb
